@@ -20,6 +20,7 @@ INVARIANT C19_OnlyOwnFailureMissing
 INVARIANT C19_NoDestruction
 INVARIANT C19_RotationResumes
 INVARIANT C19_WriterFileLinked
+INVARIANT C19_LinkResolves
 INVARIANT C01_NoTwin
 VIEW ViewF
 CHECK_DEADLOCK FALSE
